@@ -116,12 +116,21 @@ def main():
             return []
         y, m, d = [int(x) for x in today.split('-')]
 
-        class FDate(real_dt.date):
+        # isinstance(x, datetime.date) in the library must keep accepting ordinary dates while the clock is frozen
+        class _DateMeta(type):
+            def __instancecheck__(cls, inst):
+                return isinstance(inst, real_dt.date)
+
+        class _DateTimeMeta(type):
+            def __instancecheck__(cls, inst):
+                return isinstance(inst, real_dt.datetime)
+
+        class FDate(real_dt.date, metaclass=_DateMeta):
             @classmethod
             def today(cls):
                 return real_dt.date(y, m, d)
 
-        class FDateTime(real_dt.datetime):
+        class FDateTime(real_dt.datetime, metaclass=_DateTimeMeta):
             @classmethod
             def now(cls, tz=None):
                 return real_dt.datetime(y, m, d, 12, 0, 0)
